@@ -548,6 +548,20 @@ pub fn cases_c09(rng: &mut Rng, thorough: bool) -> Vec<Case> {
     v.push(Case::uncompact(vec![0], 0));
     v.push(Case::uncompact(vec![0], 1));
     v.push(Case::uncompact(vec![0], 2));
+    // repeated and related inputs: each input is expanded on its own, in input order
+    for _ in 0..(n / 8) {
+        let q = random_res(rng).min(27);
+        let c = valid_cell(rng, q);
+        let t = (q + rng.range_i(0, 2) as i32).min(29);
+        let desc = a5::cell_to_children(c, Some(t)).unwrap_or_default();
+        let last = *desc.last().unwrap_or(&c);
+        let first = *desc.first().unwrap_or(&c);
+        v.push(Case::uncompact(match rng.below(4) { 0 => vec![c, c], 1 => vec![c, last], 2 => vec![first, c, first], _ => vec![last, last, c] }, t));
+    }
+    {
+        let base = a5::get_res0_cells().unwrap();
+        v.push(Case::uncompact(vec![0, base[11], base[0], 0], 0));
+    }
     for _ in 0..n {
         let mut cells = cell_list(rng, 8);
         let too_fine = rng.chance(1, 3);
